@@ -45,7 +45,7 @@ SHARDED = True
 def floors(ctx):
     q = ctx.tier == "quick"
     f = {"evaluations": 300 if q else 3000, "fresh_interpreter_cases": 30 if q else 300, "same_process_cases": 200,
-         "deep_graph_cases": 2, "cases_with_warm_cache": 30, "cases_with_container_attrs": 50,
+         "deep_graph_cases": 4, "cases_with_warm_cache": 30, "cases_with_container_attrs": 50,
          "cases_with_nested_universes": 10, "copy_mutation_checks": 100,
          "cases_with_big_attrs": 20, "cases_with_classes_pickled_by_value": 20 if q else 100,
          "cases_with_by_value_class_using_super": 10 if q else 60, "cases_with_slotted_subclass": 20,
@@ -377,7 +377,8 @@ def build_from_desc(desc):
         objs = g.verts + g.edges + ([g.uni] if g.uni else [])
     elif desc["source"] == "chain":
         n = desc["n"]
-        vs = [Vertex(attributes={"idx": i}) for i in range(n)]
+        vcls = zoo.VERTEX_CLASSES[desc.get("vcls", "Vertex")]
+        vs = [vcls(attributes={"idx": i}) for i in range(n)]
         es = [DirectedEdge(vs[i], vs[i + 1], attributes={"tag": i}) for i in range(n - 1)]
         if desc.get("closed"):
             es.append(UnDirectedEdge(vs[-1], vs[0], attributes={"tag": n}))
@@ -474,11 +475,14 @@ def run(ctx):
     if ctx.shard == 0:
         run_main_script(ctx, batch)
     # deep graphs under a low recursion limit
-    deep = [1000, 3000] if quick else [1000, 3000, 6000, 10000]
-    for i, n in enumerate(deep):
+    # (size, vertex class): depth must not matter for any vertex class - callable instances, slots, ... included
+    deep = [(1000, "Vertex"), (3000, "Vertex"), (1500, "VCallable"), (1200, "VSlots")]
+    if not quick:
+        deep += [(6000, "Vertex"), (10000, "Vertex"), (4000, "VCallable"), (3000, "StrVertex")]
+    for i, (n, vcls) in enumerate(deep):
         if i % ctx.nshards != ctx.shard % max(1, len(deep)) and ctx.nshards > 1:
             continue
-        desc = {"source": "chain", "n": n, "closed": bool(i % 2), "attrs": "none"}
+        desc = {"source": "chain", "n": n, "closed": bool(i % 2), "attrs": "none", "vcls": vcls}
         objs = build_from_desc(desc)
         cfg = {"proto": [4, 2, 5, 3][i % 4], "via": "dumps", "loader": "pickle", "where": "same" if i % 2 else "fresh",
                "cache_dump": False, "cache_load": bool(i % 2), "warm": False, "low_recursion": True}
